@@ -650,6 +650,8 @@ class Interp:
         if sym is None: return Opaque("operator " + type(op).__name__)
         if sym == "+" and isinstance(a, str) and isinstance(b, str): return a + b
         if sym == "+" and isinstance(a, (tuple,)) and isinstance(b, (tuple,)): return a + b
+        if sym == "-" and isinstance(a, tuple) and isinstance(b, tuple) and all(isinstance(e, str) for e in a + b):
+            return tuple(e for e in a if e not in b)        # sets of names are modelled as tuples
         if sym == "+" and isinstance(a, ListVal) and isinstance(b, ListVal) and not a.per_iter and not b.per_iter:
             return ListVal(a.items + b.items)
         if sym == "*" and isinstance(a, ListVal) and to_x(b) is not None and to_x(b).as_int() is not None and not a.per_iter:
